@@ -8,9 +8,45 @@ import (
 	"encoding/json"
 	"fmt"
 	"os"
+	"runtime"
 	"sort"
 	"strconv"
+	"sync"
 )
+
+// parallelFor runs f(0..n-1) on a pool of workers (results must be stored by index, so the
+// outcome does not depend on scheduling).  VERIF_WORKERS overrides the pool size.
+func parallelFor(n int, f func(i int)) {
+	workers := runtime.NumCPU()
+	if v, err := strconv.Atoi(os.Getenv("VERIF_WORKERS")); err == nil && v > 0 {
+		workers = v
+	}
+	if workers > n {
+		workers = n
+	}
+	if workers <= 1 {
+		for i := 0; i < n; i++ {
+			f(i)
+		}
+		return
+	}
+	var wg sync.WaitGroup
+	next := make(chan int)
+	for w := 0; w < workers; w++ {
+		wg.Add(1)
+		go func() {
+			defer wg.Done()
+			for i := range next {
+				f(i)
+			}
+		}()
+	}
+	for i := 0; i < n; i++ {
+		next <- i
+	}
+	close(next)
+	wg.Wait()
+}
 
 // SubCommand is one harness entry point: verifh <name> args...
 type SubCommand func(args []string) error
